@@ -134,6 +134,63 @@ ROLE_VARIANTS = [
     {"subscriber": {"features": {"pattern_based_subscription": True}}, "publisher": {}, "caller": {}, "callee": {}},
     {"broker": {"features": {1: True}}}, {"dealer": {1: 2}}, {1: {}},
 ]
+# role-feature strata (HELLO client roles / WELCOME router roles): every known feature x every kind of value
+FEAT_VALUES = [0, 0.0, -0.0, "", [], {}, b"", 1, -1, 2, 1.5, "yes", "true", "0", [1], [True], [False], {"a": 1}, b"x",
+               None, True, False, Decimal(0), Decimal(1)]
+UNKNOWN_FEATURES = ["bogus", "x_y", "", "ROLE", "_private", "call_timeout ", "Call_Timeout", "features", "é"]
+BAD_CONTAINERS = [0, 0.0, "", [], None, 1, "x", [1], True, False, {1: 2}, b"", [{}], Decimal(0)]
+ROLE_SETS = {"Hello": ["subscriber", "publisher", "caller", "callee", "broker", "dealer", "bogus"],
+             "Welcome": ["broker", "dealer", "caller", "subscriber", "bogus"]}
+
+
+def known_features(rname):
+    import inspect
+    cls = wc.role.ROLE_NAME_TO_CLASS.get(rname)
+    if cls is None:
+        return ["call_timeout", "payload_transparency"]
+    return [p.name for p in inspect.signature(cls.__init__).parameters.values()
+            if p.name != "self" and p.kind == p.POSITIONAL_OR_KEYWORD]
+
+
+def gen_rolefeat(sel):
+    """yield (label, raw): label <Class>:rolefeat:<role>"""
+    for cname, roles in ROLE_SETS.items():
+        base = BASES[cname][0]
+        di = dict_positions(base)[0]
+        for r in roles:
+            feats = known_features(r)
+            for f in feats:
+                for v in FEAT_VALUES:
+                    if sel():
+                        yield (f"{cname}:rolefeat:{r}", setopt(base, di, "roles", {r: {"features": {f: v}}}))
+                # a good and a bad feature together, in both orders; second role carrying the bad one
+                for v in (0, "", [], 1):
+                    other = feats[(feats.index(f) + 1) % len(feats)]
+                    if sel():
+                        yield (f"{cname}:rolefeat2:{r}", setopt(base, di, "roles", {r: {"features": {other: True, f: v}}}))
+                    if sel():
+                        yield (f"{cname}:rolefeat2:{r}", setopt(base, di, "roles", {r: {"features": {f: v, other: False}}}))
+            for f in UNKNOWN_FEATURES:
+                for v in (0, 1, "x", None, True, [], {}):
+                    if sel():
+                        yield (f"{cname}:rolefeat-unknown:{r}", setopt(base, di, "roles", {r: {"features": {f: v, feats[0]: True}}}))
+            for v in BAD_CONTAINERS:
+                if sel():
+                    yield (f"{cname}:rolefeat-container:{r}", setopt(base, di, "roles", {r: {"features": v}}))
+                if sel():
+                    yield (f"{cname}:role-container:{r}", setopt(base, di, "roles", {r: v}))
+        for v in BAD_CONTAINERS + [{}]:
+            if sel():
+                yield (f"{cname}:roles-container", setopt(base, di, "roles", v))
+        # two roles, the second one bad (dict order decides which error is seen first)
+        good = roles[0]
+        for r in roles[1:3]:
+            f = known_features(r)[0]
+            for v in (0, "", 1):
+                if sel():
+                    yield (f"{cname}:rolefeat-two-roles", setopt(base, di, "roles", {good: {}, r: {"features": {f: v}}}))
+
+
 TYPE_CODES = [0, 7, 9, 15, 71, 336, 338, 2 ** 53, -1, -48, True, False, "1", 1.0, None, [1], b"\x01", Decimal(1)]
 
 
@@ -247,6 +304,7 @@ def gen_struct(tier, rng, sel):
                                 yield (f"{cname}:enc", mk() + [pl])
                         if sel():
                             yield (f"{cname}:enc-nopayload", mk() + [[1]])
+    yield from gen_rolefeat(sel)
     # type codes
     for tc in TYPE_CODES:
         if sel():
@@ -297,8 +355,39 @@ def run_struct(job):
             continue
         seen.add(tok)
         real, det = wc.outcome_of_parse(raw, ser)
+        if ":role" in label:
+            # the same structure through the real transport serializers (where they can carry it unchanged)
+            via = []
+            for sname, s2 in real_sers().items():
+                try:
+                    data = s2._serializer.serialize(raw)
+                    if s2._serializer.unserialize(data) != [raw]:
+                        continue
+                except Exception:  # noqa: BLE001
+                    continue
+                try:
+                    ms = s2.unserialize(data)
+                    r2 = "ok " + type(ms[0]).__name__
+                except BaseException as e:  # noqa: BLE001
+                    r2 = "err " + type(e).__name__
+                via.append(sname)
+                if r2.split(" ")[:2] != real.split(" ")[:2]:
+                    real = "err SerializerDisagree:%s:%s-vs-raw:%s" % (sname, r2.replace(" ", "_"), real.replace(" ", "_")[:40])
+                    break
+            det["via"] = via
         out.append({"label": label, "tok": tok, "real": real, "det": det})
     return out
+
+
+_SERS = {}
+
+
+def real_sers():
+    if not _SERS:
+        from autobahn.wamp import serializer as S
+        _SERS.update({"json": S.JsonSerializer(), "msgpack": S.MsgPackSerializer(), "cbor": S.CBORSerializer(),
+                      "ubjson": S.UBJSONSerializer()})
+    return _SERS
 
 
 def run_replay(job):
